@@ -694,7 +694,7 @@ def op_cases(ctx):
             for right in nums:
                 if op_safe(op, left, right):
                     yield {'kind': 'binary', 'op': op, 'left': left, 'right': right}
-        for _ in range(ctx.scale(60, 600)):
+        for _ in range(ctx.scale(60, 1500)):
             left, right = rng.choice(pool), rng.choice(pool)
             if rng.random() < 0.3:
                 left = gen_any(rng)
@@ -990,13 +990,13 @@ def streams(ctx):
                               'at every depth; result, failure, post-call arguments, globals and log compared by value. '
                               'non-trivial = the argument list contains at least one integral number')
     rng = ctx.rng('libnum')
-    per_fn = ctx.scale(110, 1500)
+    per_fn = ctx.scale(110, 3000)
     modelled_cases = []
     for fname in names:
         for _ in range(per_fn * (3 if fname in MODELLED or fname in ('mathRound', 'numberToFixed', 'datetimeNew', 'jsonStringify') else 1)):
             case, how = gen_case(rng, fname, models)
             check_case(ctx, lim, st, case, how)
-            if fname in MODELLED and len(modelled_cases) < ctx.scale(4000, 40000) and model_expressible(case):
+            if fname in MODELLED and len(modelled_cases) < ctx.scale(4000, 60000) and model_expressible(case):
                 modelled_cases.append(case)
 
     # --- operators
@@ -1011,7 +1011,7 @@ def streams(ctx):
                               'counters, index arithmetic with arrayLength/stringIndexOf results) executed as parsed (float literals) and with '
                               'every integral literal of the parsed model as int; result, globals, log, statement count compared')
     rng = ctx.rng('script')
-    for _ in range(ctx.scale(400, 6000)):
+    for _ in range(ctx.scale(400, 12000)):
         check_case(ctx, lim, st, {'kind': 'script', 'text': gen_script(rng)}, 'script')
 
     # --- correspondence: implementation vs Lean LibH for both spellings (+ the abstract spec)
